@@ -322,6 +322,12 @@ def judge_map_history(seq):
     sites = [(12.3, -133.4), (-45.2, 20.1), (60.7, 100.9), (-5.0, -60.0), (80.1, 0.3), (0.2, 179.0)]
     out = []
     for m in seq:
+        # (first a model that must be REFUSED: this month in a map version that is not shipped; what the failed attempt
+        # leaves behind must not stand in for the month's real map)
+        try:
+            CloudTopHeight(sim.make_config(extra={"simulation": {"cloud_model": {"id": "pressure_map", "month": m, "version": 99}}}))
+        except Exception:
+            pass
         cfg = sim.make_config(extra={"simulation": {"cloud_model": {"id": "pressure_map", "month": m}}})
         c = CloudTopHeight(cfg)
         with fits.open(files("nuspacesim.data.cloud_maps") / f"nss_map_CloudTopPressure_{m:02d}.v0.fits") as h:
